@@ -226,6 +226,10 @@ def instantiate(matcher):
     """returns (invocation text, options dict) or (None, reason)"""
     text = matcher
     opts = {"when": False, "assign": False, "returns": False, "times": False, "unit": False}
+    if text.lstrip().startswith("@"):
+        # an internal helper arm (`@name ...`): reached only through the public arms, which are
+        # the ones instantiated
+        return None, "internal helper arm"
     text, n = re.subn(r"\$\(\s*\$\w+\s*:\s*ident\s*:\s*\$\w+\s*:\s*ty\s*\)\s*,\s*\*", PARAMS, text)
     if n != 1:
         return None, "no `$($name:ident: $ty:ty),*` parameter list"
@@ -249,7 +253,7 @@ def instantiate(matcher):
 
     text = re.sub(r"\$(\w+)\s*:\s*(\w+)", sub_frag, text)
     if "$" in text:
-        return None, "fragment the generator does not know: " + re.findall(r"\$\w+(?::\w+)?", text)[0]
+        return None, "fragment the generator does not know: " + (re.findall(r"\$\w+(?::\w+)?", text) or [text[text.index("$"):][:24]])[0]
     head = re.search(r"func_type\s*:\s*((?:unsafe\s+)?(?:extern\s+\"[^\"]+\"\s+)?fn)\s*\(", text)
     if not head:
         return None, "no func_type"
@@ -666,9 +670,14 @@ def cmd_c08(out_path, prop="C08"):
         return rec.finish(out_path)
     bins = {}
     meta = {}
+    internal = 0
     for idx, arm in enumerate(arms):
         inv, opts = instantiate(arm["matcher"])
         if inv is None:
+            if opts == "internal helper arm":
+                rec.count("internal_helper_arms")
+                internal += 1
+                continue
             rec.count("unsupported_arm")
             rec.notes.append(f"arm {idx} (line {arm['line']}): unsupported: {opts}")
             continue
@@ -679,7 +688,7 @@ def cmd_c08(out_path, prop="C08"):
         meta[name] = {"idx": idx, "line": arm["line"], "opts": opts, "invocation": inv}
     rec.count("arms_found", len(arms))
     rec.count("arms_instantiated", len(bins))
-    if (len(bins) * 2 < len(arms) and "--only-times" not in sys.argv) or not bins:
+    if (len(bins) * 2 < len(arms) - internal and "--only-times" not in sys.argv) or not bins:
         rec.inconclusive.append(f"only {len(bins)} of {len(arms)} arms could be instantiated")
         return rec.finish(out_path)
     t0 = time.time()
